@@ -81,10 +81,12 @@ HuffHeapBound(kind, lens, maxint) ==
             IF j = 0 THEN 0
             ELSE F[j - 1] + (IF kind = "HWT" THEN BinLevelBound(lens[j], 512)
                              ELSE QuadLevelBound(lens[j], BlockOf(kind), IF IsPfs(kind) THEN 2048 ELSE 1024))
-    IN  F[Len(lens)] + 48 * (maxint + 1) + 4096
+    IN  F[Len(lens)] + 72 * (maxint + 1) + 4096
 
-\* C16: |reported - actual| <= 4 % of actual + 256 per component (+ tables of Huffman trees)
+\* C16: |reported - actual| <= 4 % of actual + 256 per component (+ tables of Huffman trees:
+\* the encode table has 8 bytes per symbol value, a decode entry (u32, T) up to 32 bytes and the
+\* decode vectors may keep up to twice their length as capacity: 72 bytes per symbol value)
 ReportTolerance(actual, components, huff, maxint) ==
-    actual \div 25 + 256 * components + (IF huff THEN 2304 + 40 * (maxint + 1) ELSE 0)
+    actual \div 25 + 256 * components + (IF huff THEN 2304 + 72 * (maxint + 1) ELSE 0)
 
 =============================================================================
